@@ -2768,15 +2768,21 @@ class HasTraits(CHasTraits, metaclass=MetaHasTraits):
             return
         locked = info[""]
         locked[name] = None
-        for object, object_name in info[name].values():
-            object = object()
-            if object_name not in object._get_sync_trait_info()[""]:
-                try:
-                    setattr(object, object_name, new)
-                except:
-                    pass
-
-        del locked[name]
+        try:
+            # Iterate over a snapshot: a handler that runs while a partner is
+            # being updated can drop the last reference to another partner,
+            # whose weak reference callback then shrinks the table.
+            for object, object_name in list(info[name].values()):
+                object = object()
+                if object is None:
+                    continue
+                if object_name not in object._get_sync_trait_info()[""]:
+                    try:
+                        setattr(object, object_name, new)
+                    except:
+                        pass
+        finally:
+            del locked[name]
 
     def _sync_trait_items_modified(self, object, name, old, event):
         index = event.index
@@ -2789,25 +2795,30 @@ class HasTraits(CHasTraits, metaclass=MetaHasTraits):
             return
         locked = info[""]
         locked[name] = None
-        changed_list = getattr(self, name)
-        for object, object_name in info[name].values():
-            object = object()
-            if object_name not in object._get_sync_trait_info()[""]:
-                try:
-                    partner_list = getattr(object, object_name)
-                    if partner_list is changed_list:
-                        # A partner that is not a List trait (e.g. Any) can
-                        # hold this very list object; it has changed already.
-                        continue
-                    if event.added or index.step is None:
-                        partner_list[index] = event.added
-                    else:
-                        # Deletion of an extended slice.
-                        del partner_list[index]
-                except:
-                    pass
-
-        del locked[name]
+        try:
+            changed_list = getattr(self, name)
+            # Iterate over a snapshot (see _sync_trait_modified).
+            for object, object_name in list(info[name].values()):
+                object = object()
+                if object is None:
+                    continue
+                if object_name not in object._get_sync_trait_info()[""]:
+                    try:
+                        partner_list = getattr(object, object_name)
+                        if partner_list is changed_list:
+                            # A partner that is not a List trait (e.g. Any)
+                            # can hold this very list object; it has changed
+                            # already.
+                            continue
+                        if event.added or index.step is None:
+                            partner_list[index] = event.added
+                        else:
+                            # Deletion of an extended slice.
+                            del partner_list[index]
+                    except:
+                        pass
+        finally:
+            del locked[name]
 
     def _is_list_trait(self, trait_name):
         handler = self.base_trait(trait_name).handler
